@@ -949,3 +949,105 @@ def concat_if(ex, n, cond, f):
         else:
             out = ops.seq_concat(ex, out, ops.ite(ex, c, item, SeqV("list")))
     return out
+
+
+# ----------------------------------------------------------------------------- EVO script commands (C13)
+
+
+@spec
+def two_columns_selected(ex, sel):
+    """the selection array marks wells in at least two different columns"""
+    i1, j1, i2, j2 = (z3.Int(ex.p.fresh_name(n)) for n in ("si", "sj", "ti", "tj"))
+    R, Cn = term(sel.rows, "int"), term(sel.cols, "int")
+
+    def pos(i, j):
+        return zbool(unwrap_bool(ops.compare(ex, ">", sel.fn(i, j), 0)))
+
+    return mk_bool(z3.Exists([i1, j1, i2, j2], z3.And(i1 >= 0, i1 < R, i2 >= 0, i2 < R, j1 >= 0, j1 < Cn, j2 >= 0, j2 < Cn, j1 != j2,
+                                                      pos(i1, j1), pos(i2, j2))))
+
+
+@spec
+def strictly_ascending(ex, xs):
+    items = xs.concrete_items()
+    r = True
+    for p, q in zip(items, items[1:]):
+        r = ops.and_(ex, r, ops.compare(ex, "<", tip_bit(ex, p) if not isinstance(p, WellV) else p, tip_bit(ex, q) if not isinstance(q, WellV) else q))
+    return r
+
+
+@spec
+def selection_call(ex):
+    """ghost: the (rows, cols, selected, result) of the evo_get_selection call made on this path"""
+    ev = [e for e in ex.events if e[0] == "evo_get_selection"]
+    if len(ev) != 1:
+        raise Unsupported("selection_call(): expected exactly one evo_get_selection call on this path")
+    return ev[0][1]
+
+
+@spec
+def selection_string(ex):
+    """ghost: the string returned by the evo_get_selection call made on this path"""
+    return selection_call(ex)["result"]
+
+
+@spec
+def selection_matches(ex, n_rows, n_columns, wells):
+    """evo_get_selection was called with the labware dimensions and the 0/1 array of exactly the given wells"""
+    ev = selection_call(ex)
+    ws = colmajor(ex, wells).concrete_items()
+    sel = ev["selected"]
+    i, j = z3.Int(ex.p.fresh_name("mi")), z3.Int(ex.p.fresh_name("mj"))
+    member = z3.Or(*[z3.And(term(ops.to_abstract(w).r, "int") == i, term(ops.to_abstract(w).c, "int") == j + 1) for w in ws]) if ws else z3.BoolVal(False)
+    cell = sel.fn(i, j)
+    is1 = zbool(unwrap_bool(ops.compare(ex, "==", cell, 1)))
+    is0 = zbool(unwrap_bool(ops.compare(ex, "==", cell, 0)))
+    rng = z3.And(i >= 0, i < term(n_rows, "int"), j >= 0, j < term(n_columns, "int"))
+    return mk_bool(z3.And(term(ev["rows"], "int") == term(n_rows, "int"), term(ev["cols"], "int") == term(n_columns, "int"),
+                          term(sel.rows, "int") == term(n_rows, "int"), term(sel.cols, "int") == term(n_columns, "int"),
+                          z3.ForAll([i, j], z3.Implies(rng, z3.If(member, is1, is0)))))
+
+
+@spec
+def evo_cmd(ex, kind, wells, labware_position, volume, liquid_class, tips, arm, selstr):
+    """the EVOware script command: tip mask, liquid class, eight volume slots (slot t belongs to tip t), grid, zero-based site,
+    selection string, arm - built from the arguments by EVOware's rule"""
+    from .values import RecV
+
+    tl = tips.concrete_items()
+    n = len(tl)
+    if isinstance(volume, SeqV):
+        vols = volume.concrete_items()
+    else:
+        vols = [volume] * n
+    pos = labware_position.concrete_items()
+    mask = tipmask(ex, tips)
+    fields = [lib.join_str_parts(ex, ['"', liquid_class, '"'])]
+    for t in range(1, 9):
+        bit = 2 ** (t - 1)
+        slot = "0"
+        for tp, v in reversed(list(zip(tl, vols))):
+            vr = lib.np_round(ex, lib.to_float(ex, v) if not ops.is_intlike(v) else v, 2)
+            quoted = lib.join_str_parts(ex, ['"', lib.format_value(ex, vr, ""), '"'])
+            c = ops.compare(ex, "==", tip_bit(ex, tp), bit)
+            if isinstance(c, bool):
+                slot = quoted if c else slot
+            else:
+                slot = Sym(z3.If(unwrap_bool(c), term(quoted), term(slot)), "str")
+        fields.append(slot)
+    fields += ["0", "0", "0", "0", lib.format_value(ex, pos[0], ""), lib.format_value(ex, ops.binop(ex, "-", pos[1], 1), ""), "1",
+               lib.join_str_parts(ex, ['"', selstr, '"']), "0", lib.join_str_parts(ex, [lib.format_value(ex, arm, ""), ");"])]
+    first = lib.join_str_parts(ex, [f"B;{kind}(", lib.format_value(ex, mask, "")])
+    return RecV(first, fields, ",")
+
+
+@spec
+def well_in_grid(ex, w, rows, cols):
+    w = ops.to_abstract(w)
+    return mk_bool(z3.And(term(w.r, "int") >= 0, term(w.r, "int") < term(rows, "int"), term(w.c, "int") >= 1, term(w.c, "int") <= term(cols, "int")))
+
+
+@spec
+def well_col(ex, w):
+    w = ops.to_abstract(w)
+    return ops.lift_raw(w.c)
